@@ -67,22 +67,22 @@ type simReq struct {
 }
 
 type alphSim struct {
-	mu        sync.Mutex
-	govAddr   string
-	blocks    map[string]*simBlock
-	height    int32
-	govEvents []*simEvent
-	txEvents  map[string][]*simEvent
-	txBlock   map[string]string // tx id -> block hash reported by /transactions/status ("" = not found)
-	tokens    map[string]tokenBehaviour
-	pageSize  int
-	reqs      []simReq
-	nCount    int
-	onCount   map[int]func() // run (under the lock) right after the k-th current-count request was answered
-	faults    map[string]int
-	aheadHold  bool // the count stays two events ahead of the pages until the next transaction is emitted
-	countAhead int // this many of the next current-count answers report two events more than the node can page out (their block was replaced in between)
-	drain     func(n int) // called under the lock before every request is answered: n = requests answered so far
+	mu         sync.Mutex
+	govAddr    string
+	blocks     map[string]*simBlock
+	height     int32
+	govEvents  []*simEvent
+	txEvents   map[string][]*simEvent
+	txBlock    map[string]string // tx id -> block hash reported by /transactions/status ("" = not found)
+	tokens     map[string]tokenBehaviour
+	pageSize   int
+	reqs       []simReq
+	nCount     int
+	onCount    map[int]func() // run (under the lock) right after the k-th current-count request was answered
+	faults     map[string]int
+	aheadHold  bool        // the count stays two events ahead of the pages until the next transaction is emitted
+	countAhead int         // this many of the next current-count answers report two events more than the node can page out (their block was replaced in between)
+	drain      func(n int) // called under the lock before every request is answered: n = requests answered so far
 }
 
 func newAlphSim(govAddr string) *alphSim {
@@ -90,11 +90,11 @@ func newAlphSim(govAddr string) *alphSim {
 		pageSize: 100, onCount: map[int]func(){}, faults: map[string]int{}}
 }
 
-func vU256(n uint64) jval        { return jval{"type": "U256", "value": strconv.FormatUint(n, 10)} }
-func vU256s(s string) jval       { return jval{"type": "U256", "value": s} }
-func vBytes(b []byte) jval       { return jval{"type": "ByteVec", "value": hex.EncodeToString(b)} }
-func vBytesRaw(s string) jval    { return jval{"type": "ByteVec", "value": s} }
-func vBool(b bool) jval          { return jval{"type": "Bool", "value": b} }
+func vU256(n uint64) jval     { return jval{"type": "U256", "value": strconv.FormatUint(n, 10)} }
+func vU256s(s string) jval    { return jval{"type": "U256", "value": s} }
+func vBytes(b []byte) jval    { return jval{"type": "ByteVec", "value": hex.EncodeToString(b)} }
+func vBytesRaw(s string) jval { return jval{"type": "ByteVec", "value": s} }
+func vBool(b bool) jval       { return jval{"type": "Bool", "value": b} }
 
 func msgFields(t *msgTruth) []jval {
 	var n [4]byte
@@ -294,7 +294,9 @@ func (s *alphSim) RoundTrip(r *http.Request) (*http.Response, error) {
 	return s.answer("unknown", p, 404, jval{"detail": "not found"}, line), nil
 }
 
-func simHash(kind string, n int) string { return hex.EncodeToString(vh.Expand(uint64(n)*31+uint64(len(kind))*7+uint64(kind[0]), 32)) }
+func simHash(kind string, n int) string {
+	return hex.EncodeToString(vh.Expand(uint64(n)*31+uint64(len(kind))*7+uint64(kind[0]), 32))
+}
 
 // newSimClient builds the watcher's Client around the simulator's transport.
 func newSimClient(s *alphSim) *Client {
